@@ -90,14 +90,12 @@ def CStepOKW (c : CStep) : Prop := c.wfLast = true ∧ StepFits c.step
 theorem CStepOK.weak {c : CStep} (h : CStepOK c) : CStepOKW c := by
   refine ⟨?_, h.2⟩
   have h1 := h.1
-  simp only [CStep.wf, Bool.and_eq_true] at h1
-  simp only [CStep.wfLast, Bool.and_eq_true]
-  refine ⟨h1.1, ?_⟩
+  simp only [CStep.wf] at h1
+  simp only [CStep.wfLast]
   cases hs : c.step with
   | name s =>
-    have := h1.2
-    simp only [hs, GoodName, Bool.and_eq_true] at this
-    exact this.1
+    simp only [hs, GoodName, Bool.and_eq_true] at h1
+    exact h1.1
   | _ => rfl
 
 /-- every step is well-formed; only the last one of a path without a trailing slash may be a
@@ -181,7 +179,7 @@ theorem stepPiece_ok (last : Bool) (c : CStep) (hokw : CStepOKW c) (hstrong : la
           right
           have h1 := (hstrong rfl).1
           simp only [CStep.wf, hs, Bool.and_eq_true, GoodName, bne_iff_ne, ne_eq] at h1
-          exact h1.2.2
+          exact h1.2
       have := escapeSeg_facts' last c.sp.escAll s hne hl
       exact ⟨this.1, this.2.1⟩
   | negidx n =>
@@ -404,15 +402,7 @@ theorem tokStep_piece (st : TState) (c : CStep) (hok : CStepOKW c) :
       rw [tokStep_br st _ _ (by simp) (parseSlice_two a b hfit.1 hfit.2.1)]
     | some cc =>
       simp only [notDot, Step.isUp, Step.isHere, Bool.or_self, Bool.not_false, Bool.and_true, Piece.raw, Piece.text]
-      have hz : cc ≠ some 0 := by
-        simp only [CStep.wfLast, hs, Bool.and_eq_true] at hwf
-        have := hwf.1
-        cases cc with
-        | none => simp
-        | some v =>
-          simp only [Step.wf, bne_iff_ne, ne_eq] at this
-          simpa using this
-      rw [tokStep_br st _ _ (by simp) (parseSlice_three a b cc hfit.1 hfit.2.1 hfit.2.2 hz)]
+      rw [tokStep_br st _ _ (by simp) (parseSlice_three a b cc hfit.1 hfit.2.1 hfit.2.2)]
 
 theorem stepPiece_text_ne_slash (c : CStep) (hok : CStepOKW c) : (stepPiece c).text ≠ ['/'] := by
   obtain ⟨hwf, _⟩ := hok
